@@ -13,6 +13,8 @@ copy of such an image:
   refuse    requests the tool must refuse: below the minimum, shrinking a stable_inodes
             filesystem, -b without extents, bigalloc without -f
   same      the current size, -b on a 64-bit / -s on a 32-bit filesystem (exit 0, no-ops)
+  gdtgrow   2x .. 4x growth of filesystems without reserved descriptor blocks (^resize_inode, no
+            meta_bg): the growing descriptor table displaces bitmaps and inode tables
   chain     two runs in sequence (shrink/grow/convert, then back / double / -M / random); both
             runs are judged in full, the second against the result of the first
 
@@ -25,9 +27,12 @@ not shorter than the filesystem.  After a refusal - the bytes of the filesystem 
 identical.  A run that failed after announcing the resize ("aborted") must leave
 EXT2_ERROR_FS in the primary superblock.
 
-Crash-point clause, on the traced subset (LD_PRELOAD shim/iotrace.c watching the image):
-the trace is first self-checked (replay over the pre-image == post-image, else harness
-failure); then every prefix of the write sequence is replayed over the pre-image with a
+Crash-point clause, on the traced subset: after all cases have run untraced, 20 (quick) /
+300 (thorough) of them are repeated under LD_PRELOAD shim/iotrace.c watching the image -
+chosen by what the untraced run was observed to do (inode tables moved, inodes renumbered,
+file blocks moved, groups added/removed, conversion, chain, per operation / feature class /
+spec; resize2fs is deterministic) - and judged again in full.  The trace is first
+self-checked (replay over the pre-image == post-image, else harness failure); then every prefix of the write sequence is replayed over the pre-image with a
 sparse overlay, tracking the primary superblock bytes and the set of blocks that differ
 from the pre-image outside {primary superblock, backup superblocks, backup descriptor
 blocks of the pre- and post-geometry}.  For every prefix that ends before the final
@@ -55,8 +60,14 @@ OWN_SPECS = [
     dict(name="c08_fill_ext2", kb=12288, args="-t ext2 -b 1024 -m 0", tree="std", fill=True),
     dict(name="c08_nores_flex", kb=8192, args="-t ext4 -b 1024 -O ^resize_inode -g 512 -J size=1",
          tree="std", extras=["xattrs"]),
-    dict(name="c08_nores_ext2", kb=8192, args="-t ext2 -b 1024 -O ^resize_inode -g 256 -N 2048",
+    dict(name="c08_nores_ext2", kb=16384, args="-t ext2 -b 1024 -O ^resize_inode -g 256 -N 4096",
          tree="std"),
+    # sparse_super2 corner cases: a single backup group; a full filesystem whose last group's
+    # backup area is followed by data (the backup moves to the new last group on grow)
+    dict(name="c08_sp2_one", kb=8192, args="-t ext4 -b 1024 -O sparse_super2 -E num_backup_sb=1 -g 1024 -J size=1",
+         tree="std"),
+    dict(name="c08_sp2_fill", kb=8192, args="-t ext4 -b 1024 -O sparse_super2,^resize_inode -g 1024 -J size=1 -m 0",
+         tree="std", fill=True),
     # few inodes per group + most of the early files removed again ("punch"): the survivors sit in
     # high groups, so shrinking renumbers inodes and relocates blocks, xattr blocks and EA inodes
     dict(name="c08_holes_ext4", kb=8192, args="-t ext4 -b 1024 -g 256 -N 288 -I 256 -J size=1",
@@ -70,7 +81,7 @@ QUICK_SPECS = ["ext2_1k", "ext4_1k", "ext4_4k", "ext4_flex4_g", "ext4_noflex", "
                "ext4_32bit", "ext4_bigalloc4", "ext4_inline", "ext4_sparse2", "ext4_eainode",
                "ext4_quota", "ext4_orphanfile", "ext4_full", "ext4_64groups", "ext4_4k_encodings",
                "c08_fill60", "c08_nores_flex", "c08_nores_ext2", "c08_holes_ext4", "c08_holes_ea",
-               "c08_holes_ext3"]
+               "c08_holes_ext3", "c08_sp2_one", "c08_sp2_fill"]
 THOROUGH_SPECS = QUICK_SPECS + ["ext2_4k", "ext2_2k_nosparse", "ext3_1k", "ext3_4k_htree",
                                 "ext4_1k_wide", "ext4_2k_i512", "ext4_1k_i1024", "ext4_1k_i128",
                                 "ext4_nocsum", "ext4_gdtcsum", "ext4_csumseed", "ext4_bigalloc16",
@@ -170,6 +181,12 @@ def first_problem(text, imgpath):
             continue
         if re.match(r"^\S+: \d+/\d+ files", s):
             continue
+        m = re.match(r"^(Block|Inode) bitmap differences:", s)
+        if m:       # the list of differences is seed dependent; keep only which signs occur
+            return "%s bitmap differences: %s" % (m.group(1), "".join(
+                sorted(set(re.findall(r"(?<![\d(-])([+-])[(\d]", s[len(m.group(0)):])))))
+        s = re.sub(r"'[^']*'", "'X'", s)
+        s = re.sub(r" in (/\S*|\?\?\?) \(", " in DIR (", s)
         return re.sub(r"\d+", "N", s)[:70]
     return "(no message)"
 
@@ -405,7 +422,7 @@ def candidates(info, rng):
     lo = max(mn, cur // 2)
     need_f = "bigalloc" in feats
     stable = "stable_inodes" in feats
-    out = {k: [] for k in ("min", "boundary", "random", "convert", "refuse", "same", "chain")}
+    out = {k: [] for k in ("min", "boundary", "random", "convert", "refuse", "same", "chain", "gdtgrow")}
 
     def case(kind, size=None, flags=(), note=""):
         fl = (["-f"] if need_f and kind != "refuse" else []) + list(flags)
@@ -449,6 +466,10 @@ def candidates(info, rng):
     else:
         out["refuse"].append(case("refuse", None, ["-b"], "to64-without-extents"))
     out["same"].append(case("same", str(cur), note="same-size"))
+    if "resize_inode" not in feats and "meta_bg" not in feats:
+        # no reserved descriptor blocks: growing the descriptor table displaces bitmaps / inode tables
+        for _ in range(12):
+            out["gdtgrow"].append(case("gdtgrow", str(rng.randint(2 * cur, hi)), note="gdtgrow"))
     conv = ["-s"] if "64bit" in feats else (["-b"] if "extent" in feats else None)
     for _ in range(12):
         x = rng.random()
@@ -487,17 +508,8 @@ def candidates(info, rng):
     return out
 
 
-QUOTA = [("boundary", .32), ("random", .20), ("min", .18), ("convert", .10), ("chain", .08),
-         ("refuse", .08), ("same", .04)]
-TRACE_PREF = [("c08_nores_flex", "boundary", "grow"), ("ext4_flex4_g", "boundary", "shrink"),
-              ("c08_holes_ext4", "boundary", "shrink"), ("c08_holes_ea", "random", "shrink"),
-              ("c08_holes_ext3", "boundary", "shrink"),
-              ("c08_nores_ext2", "random", "grow"), ("ext4_1k", "min", None),
-              ("ext4_metabg", "boundary", "grow"), ("ext4_bigalloc4", "random", None),
-              ("ext4_sparse2", "boundary", "grow"), ("ext4_32bit", "convert", None),
-              ("ext4_eainode", "convert", None), ("c08_fill60", "boundary", "shrink"),
-              ("ext4_64groups", "boundary", "shrink"), ("ext4_noflex", "random", "shrink")]
-
+QUOTA = [("boundary", .29), ("random", .18), ("min", .18), ("convert", .10), ("chain", .08),
+         ("refuse", .08), ("gdtgrow", .05), ("same", .04)]
 
 def req_blocks(size, bs):
     if size is None:
@@ -516,7 +528,7 @@ def direction(c, info):
     return "grow" if rb >= info["blocks"] else "shrink"
 
 
-def plan(seed, infos, total, ntraced):
+def plan(seed, infos, total):
     rng = run.rng_for(seed, "C08-plan")
     names = sorted(infos)
     cands = {}
@@ -558,46 +570,57 @@ def plan(seed, infos, total, ntraced):
         c["id"] = i
         c["traced"] = False
         c["extend"] = "harness"
-    # traced subset: preferred mechanisms first, then new (spec, kind) combinations
-    chosen = []
-    for sp, kind, dr in TRACE_PREF:
-        if len(chosen) >= ntraced:
-            break
-        for c in cases:
-            if c["spec"] == sp and c["kind"] == kind and not c["traced"] and \
-                    (dr is None or direction(c, infos[sp]) == dr):
-                c["traced"] = True
-                chosen.append(c)
-                break
-    idx = list(range(len(cases)))
-    rng.shuffle(idx)
-    nref = 0
-    for rnd in (0, 1, 2):
-        seen_s = set(c["spec"] for c in chosen)
-        seen_k = set((c["kind"], direction(c, infos[c["spec"]])) for c in chosen)
-        for i in idx:
-            if len(chosen) >= ntraced:
-                break
-            c = cases[i]
-            if c["traced"]:
-                continue
-            if c["kind"] in ("refuse", "same"):
-                if nref >= max(2, ntraced // 10):
-                    continue
-            k = (c["kind"], direction(c, infos[c["spec"]]))
-            news, newk = c["spec"] not in seen_s, k not in seen_k
-            if (rnd == 0 and news and newk) or (rnd == 1 and (news or newk)) or rnd == 2:
-                c["traced"] = True
-                chosen.append(c)
-                seen_s.add(c["spec"])
-                seen_k.add(k)
-                if c["kind"] in ("refuse", "same"):
-                    nref += 1
     # a fraction of the untraced grows let resize2fs extend the image file itself
     for c in cases:
-        if not c["traced"] and direction(c, infos[c["spec"]]) == "grow" and rng.random() < .25:
+        if direction(c, infos[c["spec"]]) == "grow" and rng.random() < .25:
             c["extend"] = "tool"
     return cases
+
+
+TAG_WEIGHT = {"itmove": 6, "renum": 5, "filemove": 4, "g+": 2, "g-": 2, "conv": 3, "chain": 3,
+              "refused": 1, "noop": 1}
+
+
+def select_traced(results, ntraced):
+    """Choose the cases to repeat under the tracer by what the untraced run was observed to do
+    (resize2fs is deterministic): greedy weighted cover of mechanisms (inode tables moved,
+    inodes renumbered, file blocks moved, groups added / removed, conversion, chains),
+    operations, feature classes and specs; a tag's weight decays each time it is covered."""
+    pool = []
+    for r in results:
+        if r.get("harness") or r.get("inconclusive") or not r.get("steps"):
+            continue
+        tags = set(["spec:" + r["case"]["spec"], "fc:" + r["fclass"]])
+        if len(r["steps"]) > 1:
+            tags.add("chain")
+        for sr in r["steps"]:
+            tags.add("op:" + sr["op"])
+            if sr["outcome"] in ("refused", "noop"):
+                tags.add(sr["outcome"])
+            d = sr.get("did") or {}
+            for k, t in (("itables_moved", "itmove"), ("renumbered", "renum"), ("moved_files", "filemove"),
+                         ("to64", "conv")):
+                if d.get(k):
+                    tags.add(t)
+            if d.get("gdelta", 0) > 0:
+                tags.add("g+")
+            if d.get("gdelta", 0) < 0:
+                tags.add("g-")
+        pool.append((r["case"], tags))
+    weight = {}
+    chosen = []
+    while pool and len(chosen) < ntraced:
+        best = None
+        for i, (c, tags) in enumerate(pool):
+            sc = sum(weight.setdefault(t, float(TAG_WEIGHT.get(t, 2 if t[:3] in ("op:", "fc:") else 1)))
+                     for t in tags)
+            if best is None or sc > best[0]:
+                best = (sc, i)
+        c, tags = pool.pop(best[1])
+        for t in tags:
+            weight[t] *= .85 if t in TAG_WEIGHT else .5
+        chosen.append(c)
+    return chosen
 
 
 # ------------------------------------------------------------------ one case
@@ -834,6 +857,31 @@ def resize_once(b, env, so, cdir, D, name, step, st, case, si):
 
 # ------------------------------------------------------------------ main
 
+def account_trace(rep, c, sr, wr, px):
+    t = sr.get("trace")
+    if not t:
+        return
+    rep.count("traced_runs")
+    rep.count("traced_op_" + sr["op"])
+    rep.add("traced_specs", c["spec"])
+    d = sr.get("did") or {}
+    for k in ("itables_moved", "renumbered", "moved_files"):
+        if d.get(k):
+            rep.count("traced_runs_with_" + k)
+    if "prefixes" not in t:
+        return
+    rep.count("traced_runs_flag_rule_evaluated")
+    rep.count("trace_prefixes_examined", t["prefixes"])
+    rep.count("trace_prefixes_with_real_modification_and_flag", t["flagged_prefixes"])
+    wr.append(t["writes"])
+    px.append(t["prefixes"])
+    rep.add("strong_form", str(t["strong"]))
+    if len(rep.samples) < 5 and t["prefixes"] > 20 and (d.get("moved_files") or d.get("itables_moved")):
+        rep.sample({"spec": c["spec"], "args": c["flags"] + [c["size"]], "then": c.get("then"),
+                    "step": sr["step"], "op": sr["op"], "did": d, "trace": t,
+                    "reported": sr.get("reported")})
+
+
 def main(tier, seed, replay=None, scale=1.0):
     rep = report.Report(
         "C08", tier, seed, "exploration",
@@ -878,12 +926,18 @@ def main(tier, seed, replay=None, scale=1.0):
             rcase["id"] = 0
             cases = [rcase]
         else:
-            cases = plan(seed, infos, total, ntraced)
+            cases = plan(seed, infos, total)
         items = [(b.root, w.dir, c, infos[c["spec"]], so) for c in cases]
-        # traced and large cases first (longest jobs)
-        items.sort(key=lambda it: (not it[2]["traced"], -it[3]["len"]))
+        items.sort(key=lambda it: -it[3]["len"])          # large images first (longest jobs)
         results = run.pmap(w_case, items)
         results.sort(key=lambda r: r["id"] if r.get("id") is not None else -1)
+        if not rcase:
+            # second phase: repeat ntraced of the cases under the tracer, chosen by what they did
+            again = []
+            for c in select_traced(results, ntraced):
+                c2 = dict(c, traced=True, id=c["id"] + 1000000, extend="harness", repeat_of=c["id"])
+                again.append((b.root, w.dir, c2, infos[c2["spec"]], so))
+            results += run.pmap(w_case, again)
         wr = []
         px = []
         for r in results:
@@ -896,14 +950,20 @@ def main(tier, seed, replay=None, scale=1.0):
                 rep.note_inconclusive(r["inconclusive"])
                 rep.case(None)
                 continue
-            rep.count("spec_" + c["spec"])
-            rep.count("kind_" + c["kind"])
-            rep.add("feature_classes", r["fclass"])
-            if c.get("extend") == "tool":
-                rep.count("grow_with_tool_extending_the_file")
+            rerun = c.get("repeat_of") is not None
+            if not rerun:
+                rep.count("spec_" + c["spec"])
+                rep.count("kind_" + c["kind"])
+                rep.add("feature_classes", r["fclass"])
+                if c.get("extend") == "tool":
+                    rep.count("grow_with_tool_extending_the_file")
             for sr in r["steps"]:
-                rep.case(sr.get("nontrivial"))
                 op = sr["op"]
+                if rerun:
+                    rep.count("traced_repeat_runs")
+                    account_trace(rep, c, sr, wr, px)
+                    continue
+                rep.case(sr.get("nontrivial"))
                 rep.count("resize2fs_runs")
                 rep.count("op_" + op)
                 rep.count("outcome_" + str(sr["outcome"]))
@@ -934,19 +994,7 @@ def main(tier, seed, replay=None, scale=1.0):
                         rep.count("size_exactly_as_requested")
                     elif sr.get("trimmed"):
                         rep.count("size_trimmed_by_tool")
-                t = sr.get("trace")
-                if t:
-                    rep.count("traced_runs")
-                    if "prefixes" in t:
-                        rep.count("traced_runs_flag_rule_evaluated")
-                        rep.count("trace_prefixes_examined", t["prefixes"])
-                        rep.count("trace_prefixes_with_real_modification_and_flag", t["flagged_prefixes"])
-                        wr.append(t["writes"])
-                        px.append(t["prefixes"])
-                        rep.add("strong_form", str(t["strong"]))
-                        if len(rep.samples) < 5 and t["prefixes"] > 20 and (d or {}).get("moved_files"):
-                            rep.sample({"spec": c["spec"], "args": c["flags"] + [c["size"]], "op": op,
-                                        "did": d, "trace": t, "reported": sr.get("reported")})
+                account_trace(rep, c, sr, wr, px)
             for key, what in r["viol"]:
                 rep.violation(key, what, replay={"case": c}, files=dict(r.get("files") or {}))
         if wr:
